@@ -1299,8 +1299,34 @@ def inline_new_helpers(tree, modshort):
         for fn in ast.walk(tree):
             if isinstance(fn, (ast.FunctionDef, ast.AsyncFunctionDef)):
                 _coalesce_copies(fn)
+        _drop_identity_copies(tree)
         ast.fix_missing_locations(tree)
     return n
+
+
+def _drop_identity_copies(tree):
+    """`a, b = (a, b)` (what is left of a helper returning the caller's own
+    names) is a no-op."""
+    for node in ast.walk(tree):
+        for fld in ('body', 'orelse', 'finalbody'):
+            lst = getattr(node, fld, None)
+            if not (isinstance(lst, list) and lst and
+                    isinstance(lst[0], ast.stmt)):
+                continue
+            keep = []
+            for st in lst:
+                if isinstance(st, ast.Assign) and len(st.targets) == 1 and \
+                        isinstance(st.targets[0], ast.Tuple) and \
+                        isinstance(st.value, ast.Tuple) and \
+                        len(st.targets[0].elts) == len(st.value.elts) and \
+                        all(isinstance(a, ast.Name) and
+                            isinstance(b, ast.Name) and a.id == b.id
+                            for a, b in zip(st.targets[0].elts,
+                                            st.value.elts)):
+                    continue
+                keep.append(st)
+            if len(keep) != len(lst):
+                setattr(node, fld, keep or [ast.Pass()])
 
 
 def _coalesce_copies(fn):
@@ -1541,3 +1567,154 @@ def expand_constant_kwargs(tree):
     if done:
         ast.fix_missing_locations(tree)
     return done
+
+
+# ------------------------------------------------------------------ N5
+def _unroll_simple(e):
+    if isinstance(e, ast.Constant):
+        return True
+    if isinstance(e, ast.Name):
+        return True
+    if isinstance(e, ast.Attribute):
+        return _unroll_simple(e.value)
+    return False
+
+
+def unroll_constant_loops(tree):
+    """N5: `for X in (e1, ..., en): BODY` over a literal tuple / list of at
+    most 8 simple expressions (names, attribute chains, constants, or
+    tuples of those matched by a tuple target), or over a module-level name
+    bound once to such a literal, is BODY[X := e1]; ...; BODY[X := en].
+    Only loops without break / continue / else whose variable is not
+    re-bound in the body; a `setattr(self, '<const>', v)` that results is
+    written `self.<const> = v`.  Rules that classify what is pushed,
+    copied or applied per option see the straight-line code either way.
+    (Applied in the inlined view only.)"""
+    consts = {}
+    for st in tree.body:
+        if isinstance(st, ast.Assign) and len(st.targets) == 1 and \
+                isinstance(st.targets[0], ast.Name) and isinstance(
+                    st.value, (ast.Tuple, ast.List)):
+            nm = st.targets[0].id
+            consts[nm] = None if nm in consts else st.value
+    stores = {}
+    for x in ast.walk(tree):
+        if isinstance(x, ast.Name) and isinstance(x.ctx, (ast.Store,
+                                                          ast.Del)):
+            stores[x.id] = stores.get(x.id, 0) + 1
+    consts = {k: v for k, v in consts.items()
+              if v is not None and stores.get(k) == 1}
+    done = [0]
+
+    def elements(it):
+        if isinstance(it, ast.Name) and it.id in consts:
+            it = consts[it.id]
+        if isinstance(it, (ast.Tuple, ast.List)) and 1 <= len(it.elts) <= 8:
+            return it.elts
+        return None
+
+    def unroll(loop):
+        if loop.orelse:
+            return None
+        els = elements(loop.iter)
+        if els is None:
+            return None
+        tgt = loop.target
+        if isinstance(tgt, ast.Name):
+            names = [tgt.id]
+            if not all(_unroll_simple(e) for e in els):
+                return None
+        elif isinstance(tgt, ast.Tuple) and all(
+                isinstance(t, ast.Name) for t in tgt.elts):
+            names = [t.id for t in tgt.elts]
+            if not all(isinstance(e, ast.Tuple) and
+                       len(e.elts) == len(names) and
+                       all(_unroll_simple(y) for y in e.elts) for e in els):
+                return None
+        else:
+            return None
+        if len(loop.body) > 25:
+            return None
+        for s in loop.body:
+            for x in ast.walk(s):
+                if isinstance(x, ast.Name) and x.id in names and \
+                        isinstance(x.ctx, (ast.Store, ast.Del)):
+                    return None
+        # break / continue that belong to this loop
+
+        def own_jumps(stmts):
+            for s in stmts:
+                if isinstance(s, (ast.Break, ast.Continue)):
+                    return True
+                if isinstance(s, (ast.For, ast.While, ast.FunctionDef,
+                                  ast.AsyncFunctionDef, ast.ClassDef)):
+                    continue
+                for fld in ('body', 'orelse', 'finalbody'):
+                    sub = getattr(s, fld, None)
+                    if isinstance(sub, list) and own_jumps(sub):
+                        return True
+                if isinstance(s, ast.Try):
+                    for h in s.handlers:
+                        if own_jumps(h.body):
+                            return True
+            return False
+        if own_jumps(loop.body):
+            return None
+        out = []
+        for e in els:
+            vals = [e] if len(names) == 1 and not isinstance(
+                tgt, ast.Tuple) else list(e.elts)
+            sub = dict(zip(names, vals))
+            tr = _Rename(sub, {})
+            for s in loop.body:
+                c = tr.visit(copy.deepcopy(s))
+                for x in ast.walk(c):
+                    if hasattr(x, 'lineno'):
+                        pass
+                out.append(c)
+        # the loop variable keeps its last value
+        last = els[-1]
+        out.append(ast.copy_location(ast.Assign(
+            targets=[copy.deepcopy(tgt)], value=copy.deepcopy(last)), loop))
+        done[0] += 1
+        return out
+
+    def rewrite(body):
+        res = []
+        for st in body:
+            for fld in ('body', 'orelse', 'finalbody'):
+                sub = getattr(st, fld, None)
+                if isinstance(sub, list) and sub and isinstance(
+                        sub[0], ast.stmt):
+                    setattr(st, fld, rewrite(sub))
+            if isinstance(st, ast.Try):
+                for h in st.handlers:
+                    h.body = rewrite(h.body)
+            if isinstance(st, ast.For):
+                u = unroll(st)
+                if u is not None:
+                    res.extend(u)
+                    continue
+            res.append(st)
+        return res
+    tree.body = rewrite(tree.body)
+    if done[0]:
+        # setattr(self, 'name', v)  ->  self.name = v
+        class _SA(ast.NodeTransformer):
+            def visit_Expr(self, node):
+                c = node.value
+                if isinstance(c, ast.Call) and isinstance(
+                        c.func, ast.Name) and c.func.id == 'setattr' and \
+                        len(c.args) == 3 and not c.keywords and isinstance(
+                            c.args[1], ast.Constant) and isinstance(
+                            c.args[1].value, str) and \
+                        c.args[1].value.isidentifier():
+                    return ast.copy_location(ast.Assign(
+                        targets=[ast.Attribute(value=c.args[0],
+                                               attr=c.args[1].value,
+                                               ctx=ast.Store())],
+                        value=c.args[2]), node)
+                return node
+        _SA().visit(tree)
+        ast.fix_missing_locations(tree)
+    return done[0]
